@@ -441,6 +441,7 @@ def editTargets (p : Problem) : Edit → List Quantity
   | .lattice i _ => [.node (.cellLat i)]
   | .delLattice i => [.node (.cellLat i)]
   | .universe i _ => [.field (.cellUni i)]
+  | .claim _ cells => cells.map (fun i => .field (.cellUni i))
   | .notTruncated i _ => [.field (.cellNotTrunc i)]
   | .fillUniverse i _ => [.field (.cellFillUni i)]
   | .fillTransform i _ => [.field (.cellFillTr i)]
@@ -559,6 +560,16 @@ theorem plan_targets (p : Problem) (e : Edit) (as : List Action) (hp : plan p e 
     repeat' split at hp
     all_goals first | cases hp | skip
     all_goals (intro act hm; simp at hm; subst hm; simp [editTargets, Action.target])
+  | claim u cells =>
+    simp only [plan] at hp
+    repeat' split at hp
+    all_goals first | cases hp | skip
+    all_goals (
+      intro act hm
+      simp only [List.mem_map] at hm
+      obtain ⟨i, hi, rfl⟩ := hm
+      simp only [editTargets, List.mem_map, Action.target]
+      exact ⟨i, hi, rfl⟩)
   | notTruncated i v =>
     simp only [plan] at hp
     repeat' split at hp
@@ -836,6 +847,108 @@ def C03_written_statement : Prop :=
 
 theorem C03_written_all : C03_written_statement := fun p hI k => C03_written p hI k
 
+/-! ## a move to another universe keeps the not-truncated mark (`Cell.universe = u`, `Universe.claim`) -/
+
+/-- the assignments of a move of `cells` into universe `u` -/
+def moveActions (u : Nat) (cells : List Nat) : List Action :=
+  cells.map (fun i => .setField (.cellUni i) (.ptr (some u)))
+
+/-- the entry of the U input: the number of the universe under the sign of the mark (nothing for universe 0) -/
+def signedU : Obs → Obs → Obs
+  | .int n, .flag nt => if n = 0 then .absent else .int (if nt then -n else n)
+  | _, _ => .absent
+
+theorem absActions_move_frame (u : Nat) (cells : List Nat) (a : AbstractProblem) (q : Quantity)
+    (hq : ∀ i ∈ cells, q ≠ .field (.cellUni i)) : absActions a (moveActions u cells) q = a q := by
+  apply absActions_frame
+  intro act hm heq
+  simp only [moveActions, List.mem_map] at hm
+  obtain ⟨i, hi, rfl⟩ := hm
+  exact hq i hi heq.symm
+
+theorem absActions_move_target (u : Nat) (cells : List Nat) : ∀ (a : AbstractProblem) (i : Nat), i ∈ cells →
+    absActions a (moveActions u cells) (.field (.cellUni i)) = .ptr (some u) := by
+  induction cells with
+  | nil => intro a i h; cases h
+  | cons x xs ih =>
+    intro a i hi
+    show absActions (absAction a (.setField (.cellUni x) (.ptr (some u)))) (moveActions u xs) _ = _
+    by_cases hx : i ∈ xs
+    · exact ih _ i hx
+    · have hix : i = x := by
+        rcases List.mem_cons.mp hi with h | h
+        · exact h
+        · exact absurd h hx
+      subst hix
+      rw [absActions_move_frame u xs _ _ (fun j hj h => by
+        have : i = j := by injection h with h; injection h
+        exact hx (this ▸ hj))]
+      simp [absAction, upd]
+
+/-- whatever edit is planned as a move (the setter of `Cell.universe`, `Universe.claim`): the mark of every cell reads
+    as before, every moved cell points to the new universe and is written with the number of that universe under the
+    sign of the mark it had, and no other quantity changes -/
+theorem move_keeps_mark (p p' : Problem) (e : Edit) (u : Nat) (cells : List Nat) (hI : Inv p)
+    (hp : plan p e = .ok (moveActions u cells)) (h : applyEdit p e = .ok p') :
+    (∀ j, α p' (.field (.cellNotTrunc j)) = α p (.field (.cellNotTrunc j))) ∧
+    (∀ i ∈ cells, α p' (.field (.cellUni i)) = .ptr (some u) ∧
+      written p' (.cellU i) = signedU (α p (.field (.uniNumber u))) (α p (.field (.cellNotTrunc i)))) ∧
+    (∀ x, (∀ i ∈ cells, x ≠ .field (.cellUni i)) → α p' x = α p x) := by
+  obtain ⟨as, hp', hα⟩ := C03_refines p p' e hI h
+  rw [hp] at hp'
+  cases hp'
+  have frame : ∀ x, (∀ i ∈ cells, x ≠ .field (.cellUni i)) → α p' x = α p x := by
+    intro x hx
+    rw [hα]
+    exact absActions_move_frame u cells _ x hx
+  refine ⟨fun j => frame _ (fun i _ => by simp), ?_, frame⟩
+  intro i hi
+  have hu : α p' (.field (.cellUni i)) = .ptr (some u) := by
+    rw [hα]
+    exact absActions_move_target u cells _ i hi
+  refine ⟨hu, ?_⟩
+  have hn : p'.field (.uniNumber u) = α p (.field (.uniNumber u)) := frame (.field (.uniNumber u)) (fun i _ => by simp)
+  have hm : p'.field (.cellNotTrunc i) = α p (.field (.cellNotTrunc i)) := frame (.field (.cellNotTrunc i)) (fun i _ => by simp)
+  rw [α_field] at hu
+  simp only [written, hu, hn, hm]
+  cases α p (.field (.uniNumber u)) <;> cases α p (.field (.cellNotTrunc i)) <;> rfl
+
+/-- **C03_universe_keeps_mark.**  `cell.universe = u` edits the universe of the cell and nothing else: the
+    not-truncated mark of every cell (the minus sign of `u=-n`) reads as before, and the cell is written with the number
+    of its new universe under the sign of the mark it had before the move. -/
+theorem C03_universe_keeps_mark (p p' : Problem) (i u : Nat) (hI : Inv p) (h : applyEdit p (.universe i u) = .ok p') :
+    (∀ j, α p' (.field (.cellNotTrunc j)) = α p (.field (.cellNotTrunc j))) ∧
+    α p' (.field (.cellUni i)) = .ptr (some u) ∧
+    written p' (.cellU i) = signedU (α p (.field (.uniNumber u))) (α p (.field (.cellNotTrunc i))) ∧
+    (∀ x, x ≠ .field (.cellUni i) → α p' x = α p x) := by
+  have hp : plan p (.universe i u) = .ok (moveActions u [i]) := by
+    obtain ⟨as, hp, _⟩ := C03_refines p p' _ hI h
+    simp only [plan] at hp ⊢
+    repeat' split at hp
+    all_goals first | cases hp | skip
+    simp_all [moveActions]
+    grind
+  obtain ⟨h1, h2, h3⟩ := move_keeps_mark p p' _ u [i] hI hp h
+  exact ⟨h1, (h2 i (List.mem_singleton.mpr rfl)).1, (h2 i (List.mem_singleton.mpr rfl)).2,
+    fun x hx => h3 x (fun j hj => by rw [List.mem_singleton.mp hj]; exact hx)⟩
+
+/-- **C03_claim_keeps_mark.**  `universe.claim(cells)` moves every cell given and edits nothing else: same statement
+    for every claimed cell, for lists of any length. -/
+theorem C03_claim_keeps_mark (p p' : Problem) (u : Nat) (cells : List Nat) (hI : Inv p)
+    (h : applyEdit p (.claim u cells) = .ok p') :
+    (∀ j, α p' (.field (.cellNotTrunc j)) = α p (.field (.cellNotTrunc j))) ∧
+    (∀ i ∈ cells, α p' (.field (.cellUni i)) = .ptr (some u) ∧
+      written p' (.cellU i) = signedU (α p (.field (.uniNumber u))) (α p (.field (.cellNotTrunc i)))) ∧
+    (∀ x, (∀ i ∈ cells, x ≠ .field (.cellUni i)) → α p' x = α p x) := by
+  have hp : plan p (.claim u cells) = .ok (moveActions u cells) := by
+    obtain ⟨as, hp, _⟩ := C03_refines p p' _ hI h
+    simp only [plan] at hp ⊢
+    repeat' split at hp
+    all_goals first | cases hp | skip
+    simp_all [moveActions]
+    grind
+  exact move_keeps_mark p p' _ u cells hI hp h
+
 /-! ## valid edits are accepted -/
 
 /-- `i` addresses an existing object (written as the negation of the guard of the code) -/
@@ -863,6 +976,7 @@ def Valid (p : Problem) : Edit → Prop
   | .lattice i (.int n) => inRange i p.ncells ∧ (n = 1 ∨ n = 2)
   | .delLattice i => inRange i p.ncells
   | .universe i u => inRange i p.ncells ∧ inRange u p.nunis
+  | .claim u cells => inRange u p.nunis ∧ cells.any (fun i => i ≥ p.ncells) = false
   | .notTruncated i (.bool false) => inRange i p.ncells
   | .fillUniverse i none => inRange i p.ncells
   | .fillUniverse i (some u) => inRange i p.ncells ∧ inRange u p.nunis
@@ -892,7 +1006,7 @@ theorem C03_accepts (p : Problem) (e : Edit) (hv : Valid p e) : ∃ p', applyEdi
     split at hv <;>
       simp_all [plan, setNumber, setFloat, setBoolField, pyNum, inRange] <;>
       (repeat' split) <;>
-      first | exact ⟨_, rfl⟩ | omega
+      first | exact ⟨_, rfl⟩ | omega | grind
   obtain ⟨as, hp⟩ := key
   exact ⟨execActions p as, by simp [applyEdit, hp]⟩
 
@@ -961,6 +1075,29 @@ example : ∃ p', applyEdit demo (.importance 0 "n" (.float 2)) = .ok p' ∧
     exact hv
   · rw [(C03_importance demo p' 0 "n" (.float 2) demo_inv h).2 _ (by simp)]
     simp [α, demo, demoSlot]
+
+/-- `1 0 -1 u=-6 imp:n,p=1` next to a universe 5: a cell that carries the not-truncated mark, and a universe to move it to -/
+def demoU : Problem :=
+  { demo with
+    nunis := 2
+    field := fun f => if f = .cellUni 0 then .ptr (some 0) else if f = .cellNotTrunc 0 then .flag true
+      else if f = .uniNumber 0 then .int 6 else if f = .uniNumber 1 then .int 5 else demo.field f }
+
+theorem demoU_inv : Inv demoU := by
+  obtain ⟨a, b, c, d⟩ := demo_inv
+  exact ⟨a, b, c, d⟩
+
+/-- non-vacuity of `C03_universe_keeps_mark` / `C03_claim_keeps_mark`: the marked cell moved to universe 5 is written `u=-5` -/
+example : written demoU (.cellU 0) = .int (-6) := by decide
+example : ∃ p', applyEdit demoU (.universe 0 1) = .ok p' ∧ written p' (.cellU 0) = .int (-5) ∧
+    α p' (.field (.cellNotTrunc 0)) = .flag true := by
+  obtain ⟨p', h⟩ := C03_accepts demoU (.universe 0 1) (by simp [Valid, inRange, demoU, demo])
+  obtain ⟨h1, _, h3, _⟩ := C03_universe_keeps_mark demoU p' 0 1 demoU_inv h
+  exact ⟨p', h, by rw [h3]; decide, by rw [h1]; decide⟩
+example : ∃ p', applyEdit demoU (.claim 1 [0]) = .ok p' ∧ written p' (.cellU 0) = .int (-5) := by
+  obtain ⟨p', h⟩ := C03_accepts demoU (.claim 1 [0]) (by simp [Valid, inRange, demoU, demo])
+  obtain ⟨_, h2, _⟩ := C03_claim_keeps_mark demoU p' 1 [0] demoU_inv h
+  exact ⟨p', h, by rw [(h2 0 (by simp)).2]; decide⟩
 
 /-- what goes wrong without copy-on-write (the code before the fix; DESIGN 7.3 #10): a plain `node.value = v` on
     the shared node changes the photon importance as well — the frame theorem needs `Importance.__setitem__`'s copy. -/
